@@ -440,6 +440,48 @@ def check(ctx):
                          finding='D29' if d29_known and name.endswith(':D29') else None)
         elif status == 'error':
             ctx.count('po-error:' + info[:60])
+    # ---- transcoding to EVERY supported charset able to represent the catalog (the tool's own codecs included), charset field adjusted
+    from lib import encodings as E
+    texts = {'vi': ['Tiếng Việt', 'Ẳn Ẵ Ẫ', 'Ỷ Ỹ Ỵ đường'], 'pl': ['Zażółć', 'gęślą jaźń'], 'ru': ['Съешь ещё', 'булок'], 'ka': ['ქართული', 'ენა'],
+             'zh': ['中文', '語言'], 'el': ['Ελληνικά', 'γλώσσα'], 'tg': ['Тоҷикӣ', 'қӯҳ'], 'west': ['café', 'Größe naïve']}
+    all_cs = sorted(set(E.get_portable_encodings(python=False)) | {x.upper() for x in getattr(E, '_extra_encodings', ())})
+    ntrans = 0
+    for lang, words in sorted(texts.items()):
+        cat = copy.deepcopy(pogen.base_catalog())
+        cat['entries'] = [{'msgid': 'fox %d', 'msgstr': words[0] + ' %s', 'flags': ['c-format']},                 # a type mismatch the msgstr-level checks must keep finding
+                          {'msgid': 'quick', 'msgstr': words[1] + ' \x7f'},                                        # an unusual character
+                          {'msgid': 'dog\n', 'msgstr': ' '.join(words)},                                          # inconsistent trailing newline
+                          {'msgctxt': words[0], 'msgid': 'ctx', 'msgstr': words[-1] + '\n'}]
+        text = pogen.render(cat)
+        base = os.path.join(common.WORK, 'c17', 'tr_%s' % lang)
+        os.makedirs(os.path.join(base, 'u'), exist_ok=True)
+        pu = os.path.join(base, 'u', 'messages.po')
+        with open(pu, 'w', encoding='utf-8') as f:
+            f.write(text)
+        tu = [t for t in tags_of(pu) if t[0] not in CHARSET_TAGS]
+        for cs in all_cs:
+            try:
+                data = text.replace('charset=UTF-8', 'charset=' + cs).encode(cs)
+                rep = bytes([0, 4, 7, 8, 9, 10, 11, 12, 13, 27] + list(range(32, 127)))     # the pinned ASCII repertoire (see c20.py)
+                if data.decode(cs) != text.replace('charset=UTF-8', 'charset=' + cs) or rep.decode(cs) != rep.decode('ascii'):
+                    continue
+            except (UnicodeError, LookupError):
+                continue
+            os.makedirs(os.path.join(base, 'c'), exist_ok=True)
+            pc = os.path.join(base, 'c', 'messages.po')
+            with open(pc, 'wb') as f:
+                f.write(data)
+            tc = [t for t in tags_of(pc) if t[0] not in CHARSET_TAGS]
+            ctx.evaluations += 1
+            ntrans += 1
+            ctx.count('transcoded:' + lang)
+            if tc != tu:
+                ctx.fail('po-spelling', {'variant': 'transcoded to ' + cs, 'catalog': text[:2500]},
+                         'diagnostics differ between the UTF-8 spelling and the %s spelling: only UTF-8 %r ; only %s %r' % (
+                             cs, [t for t in tu if t not in tc][:3], cs, [t for t in tc if t not in tu][:3]))
+            else:
+                ctx.nontriv(('tr', lang, cs))
+    ctx.stats['transcoded_spellings'] = ntrans
     # ---- MO layouts, PO vs MO
     if have('msgfmt'):
         n2 = 100 if ctx.quick() else 3000
